@@ -7,6 +7,12 @@ NOTE_COMMON = ('Trusted: Coq 8.16.1 kernel; no axioms (Print Assumptions of each
                'the hand-written Gallina model coq/Model/*.v is tied to /repo only by the differential correspondence run of this check (extracted OCaml model vs the crate rebuilt from the working tree, same case files); '
                'extraction with ExtrOcamlBasic only; CRCs, std I/O adapters, allocator and 64-bit usize are modelled, not verified. ')
 T = {
+ 'C06': ('Machine-checked soundness theorem for the model of xz_decompress with the CRC functions as arbitrary parameters: success implies that the complete input is exactly one stream hdr ++ blocks ++ index ++ footer in which header magic/flags/CRC32, every block header CRC32, declared block sizes, zero padding, every block check (CRC32/CRC64 of the decoded output), the index record count and per-block sizes and CRC32, and the footer CRC32, flags and backward size (compared in unbounded arithmetic) all agree with the decoded data, nothing follows the footer, and the sink received exactly the blocks\' outputs (inversion of the parser, induction over the block loop). The no-silent-corruption consequence is tested by exhaustive single-bit flips of sample files and by one mutant per integrity field with enclosing CRCs recomputed.',
+         'Coq proof (inversion of the monadic parser, loop invariant over blocks) + differential correspondence on field mutants, bit flips, truncations',
+         'Absence of CRC collisions is tested, not proved. The block-header reader (BufReader<CrcDigestRead<Take>>) is modelled by its net effect.'),
+ 'C18': ('Machine-checked theorems on the model of the XZ decoder: success implies that the input is exactly one stream (nothing left unread: no second stream, no stream padding), that the check type is None/CRC32/CRC64 whenever a block exists (a SHA-256 block never validates), and decision rules: unassigned check IDs, any reserved stream-flag bit, any reserved block-flag bit and any filter ID other than 0x21 make the parser fail. Tied to the crate by re-serialising well-formed files with each unsupported feature.',
+         'Coq proof (corollaries of the soundness theorem and parser decision rules) + differential correspondence',
+         'A zero-block file declaring SHA-256 is accepted by design (nothing is skipped); documented in DESIGN.md.'),
  'C04': ('Machine-checked theorems: for EVERY sequence of (probability, bit) steps the model of RangeEncoder (cache/carry propagation, 0xFF runs) plus finish() emits exactly the canonical byte string of the ideal unbounded-precision range encoder of the format theory, to sinks accepting any number of bytes per write; and the end marker written by dumbencoder.rs with probability-0x400 bits equals direct-bit coding for every reachable range. Round trip and byte-for-byte conformance of the three compressors with the reference encoding are checked by the differential run (model, crate, reference encoder, xz binary when present).',
          'Coq proof (carry lemma, refinement of the ideal encoder, phase invariant for the marker) + differential correspondence',
          'Partial: the composition of these lemmas through denc_finish / lzma_compress (probability tables threaded) and the LZMA2/XZ writers is not yet a theorem; it is covered by the correspondence run.'),
